@@ -12,7 +12,7 @@ RULE = (
     "value; before every psi attempt the identity rows of the Laplacian == terminal site set (empty when unset) and the update "
     "identity holds on all rows; non-trivial = at least 3 updates on a device with terminals; distinct = scenario digests"
 )
-LIFECYCLES = {"p_prior": 0.07, "p_reoriented": 0.04}  # shared object life cycles (scen.add_lifecycles) with their default rates
+LIFECYCLES = {"p_prior": 0.07, "p_reoriented": 0.04, "p_guest": 0.15}  # shared object life cycles (scen.add_lifecycles) with their default rates
 BUDGET = {"quick": {"runs": 500, "chunk": 10}, "thorough": {"runs": 80000, "chunk": 20}}
 COMPONENTS = {"real": ["MeshOperators (build + in-place refresh)", "TDGLSolver.update", "Device.terminal_info"], "stub": ["wall clock", "validator RNG (seeded)"]}
 
